@@ -285,6 +285,10 @@ class TracerScenario:
                 return S("class:app.ClassOf_" + args[0].name.replace(":", "_"))
             if fname == "id":
                 return R("id", of=args[0])
+        if fname == "type" and len(args) == 1 and not kwargs and isinstance(args[0], (K, R)) and not (isinstance(args[0], R) and args[0].kind not in ("dict", "list")):
+            # a plain Python value of the scenario (the tuple bound to *args, the dict bound to **kwargs): its exact builtin class
+            a_t = args[0]
+            return S("builtin:" + (a_t.kind if isinstance(a_t, R) else type(a_t.v).__name__))
         if fname == "issubclass" and len(args) == 2:
             a = real_class(args[0])
             seq = list(args[1].v) if isinstance(args[1], K) and isinstance(args[1].v, tuple) else [args[1]]
